@@ -415,6 +415,12 @@ def transcript_events_in(P, f):
     from ..core.terms import subst
 
     ev = evaluate(f)
+    # transcript filled by a loop in f itself (e.g. a loop helper that was spliced in)
+    if any(x.callee[0].endswith("Transcript::new") for x in ev.sites.values()):
+        for src_b, h in f.cfg.back_edges():
+            body = f.cfg.natural_loop(src_b, h)
+            if any(b in ev.sites and ev.sites[b].callee[0].endswith("Transcript::append_message") for b in body):
+                return loop_transcript_events(P, f, ev, None, {}), ev, "loop-helper", (f, None)
     evts = transcript_events(ev)
     if evts is not None:
         return evts, ev, "inline", None
@@ -454,7 +460,7 @@ def _zip_sources(P, gev, site):
                 if c.get("name") == src.a[0] and (c.get("value") or {}).get("elems_hex") is not None:
                     vals = [("label", bytes.fromhex(h)) for h in c["value"]["elems_hex"]]
             out.append(vals)
-        elif src.op == "param":
+        elif src.op == "param" and site is not None:
             arg = site.args[src.a[0] - 1] if src.a[0] - 1 < len(site.args) else None
             x = B.peel(arg) if arg is not None else None
             out.append([("term", e) for e in x.a[1]] if x is not None and x.op == "agg" and x.a[0][0] == "array" else None)
